@@ -34,4 +34,14 @@ Definition dom_object (o : object) : bool :=
 Definition dom_triple (t : triple) : bool :=
   dom_node (subj t) && dom_pred (tpred t) && negb (memb c_space (pid (tpred t))) && dom_object (tobj t).
 
-Definition value_kind_count := 5%nat.
+(* in the line-oriented graph format no component may contain a newline: node ids and text literals are the only
+   components printed raw (types cannot contain one, predicate ids are quoted, numbers and blobs are digits) *)
+Definition no_nl (s : str) : bool := negb (memb x0a s).
+Definition line_safe_object (o : object) : bool :=
+  match o with
+  | ONode n => no_nl (nid n)
+  | OLit (LText s) => no_nl s
+  | _ => true
+  end.
+Definition dom_graph_triple (t : triple) : bool :=
+  dom_triple t && no_nl (nid (subj t)) && line_safe_object (tobj t).
